@@ -68,7 +68,7 @@ class Run:
                 self.known = [e for e in json.load(fh)['findings'] if e['property'] == pid]
         except FileNotFoundError:
             self.known = []
-        self.replay_dir = os.path.join(VERIF, 'out', 'replays' if os.path.realpath(REPO) == '/repo' else 'replays_alt', pid)
+        self.replay_dir = os.path.join(VERIF, 'out', 'replays' if os.path.realpath(REPO) == '/repo' else 'replays_alt_' + os.path.basename(os.path.realpath(REPO)), pid)
         if replay is None:
             shutil.rmtree(self.replay_dir, ignore_errors=True)
         os.makedirs(self.replay_dir, exist_ok=True)
